@@ -103,6 +103,115 @@ TABLE = [
     ('C20-add-candle-direct-index', 'wt_C18', 3, 'C20', 'C20',
      'CandlesState.add_candle replaces an older candle by computed index instead of searching the equal timestamp',
      'a stored series with a skipped stretch, then an older candle re-added'),
+    # ---------------------------------------------------------------------------------------------- round 2
+    ('C09-chunk-liquidation-checks-last-minute-only', 'wt_R09', 1, 'C09', 'C09',
+     'fast mode: _check_for_liquidations receives the last 1m candle of the chunk instead of the aggregated chunk',
+     'fast_mode, route timeframe > 1m, a wick to the liquidation price in a minute other than the last of the chunk'),
+    ('C09-step-liquidation-checks-remaining-candle', 'wt_R09', 2, 'C09', 'C09',
+     'step mode: _check_for_liquidations receives current_temp_candle (what a fill left over) instead of the whole minute',
+     'a minute in which a resting order fills and whose wick also reaches the liquidation price'),
+    ('C09-liquidation-price-cached-across-increase', 'wt_R09', 3, 'C09', 'C09',
+     'Position.liquidation_price memoised and not invalidated in _mutating_increase',
+     'a scale-in followed by a wick between the first fill\'s liquidation price and the averaged one'),
+    ('C11-candles-shallow-copied', 'wt_R11', 1, 'C11', 'C11',
+     '_isolated_backtest copies the candle dicts but shares the numpy arrays with the caller',
+     'candles with price jumps (the simulator patches them in place)'),
+    ('C11-warmup-zero-keeps-previous', 'wt_R11', 2, 'C11', 'C11',
+     'set_config installs warm_up_candles only when it is truthy',
+     'warm_up_candles = 0 after a session with a non-zero warm-up'),
+    ('C11-empty-metrics-shared-dict', 'wt_R11', 3, 'C11', 'C11',
+     'the zero-trade metrics literal hoisted to a module constant returned by reference',
+     'a session closing no trade and a caller that edits the dict it received'),
+    ('C17-limit-stop-loss-measured-against-stop', 'wt_R17', 1, 'C17', 'C17',
+     'limit_stop_loss measures the risk percentage against the stop price instead of the entry',
+     'stops within pct^2/100 percent of the cap boundary'),
+    ('C17-sum-floats-12-significant-digits', 'wt_R17', 2, 'C17', 'C17',
+     'sum_floats / subtract_floats read their operands through format(x, ".12g")',
+     'operands with more than 12 significant digits (1e4 and above with 8 decimals)'),
+    ('C17-floor-with-precision-rounds-first', 'wt_R17', 3, 'C17', 'C17',
+     'floor_with_precision rounds num * 10**p to 6 decimals before flooring',
+     'a quotient within 5e-7 steps below a precision-step multiple'),
+    ('C19-charset-range-drops-last-letter', 'wt_R19', 1, 'C19', 'C19',
+     'Optimizer default charset generated with range(40, 119): the letter w is missing',
+     'the last letter of the alphabet / the top of a wide range'),
+    ('C19-default-zero-replaced-by-min', 'wt_R19', 2, 'C19', 'C19',
+     "Strategy._init_objects uses dna.get('default') or dna['min']",
+     'a declared default of exactly 0 with min != 0'),
+    ('C19-dna-overrides-explicit-hyperparameters', 'wt_R19', 3, 'C19', 'C19',
+     '_prepare_routes drops the `hyperparameters is None` guard: dna() overrides explicit values',
+     'a strategy with a non-empty dna() and a caller passing hyperparameters'),
+    ('C08-no-resort-after-fill', 'wt_R08', 1, 'C08', 'C08',
+     '_simulate_price_change_effect no longer re-sorts the candidates fetched after a fill',
+     'three or more resting orders in one candle whose creation order differs from the path order'),
+    ('C08-gap-fix-uses-previous-high', 'wt_R08', 2, 'C08', 'C08',
+     '_get_fixed_jumped_candle extends a down-gap minute to the previous HIGH instead of the previous close',
+     'a down-gap after a candle with an upper wick and an order resting inside that wick'),
+    ('C08-split-whole-candle', 'wt_R08', 3, 'C08', 'C08',
+     '_simulate_price_change_effect splits real_candle instead of the remaining part',
+     'a two-level reaction chain (order created by a fill hook, then another one)'),
+    ('C14-minmax-index-precedence', 'wt_R14', 1, 'C14', 'C14',
+     'minmax returns is_min[-order+1] instead of is_min[-(order+1)]',
+     'a strict local extremum exactly order+1 from the end'),
+    ('C14-midprice-guard-off-by-one', 'wt_R14', 2, 'C14', 'C14',
+     'midprice non-sequential guard len(candles) <= period',
+     'input length equal to the period'),
+    ('C14-trima-even-period-length', 'wt_R14', 3, 'C14', 'C14',
+     'trima uses the odd-period kernel for even periods: the sequential result has n-1 entries',
+     'an even period (the default 30) and a check of the sequential length'),
+    ('C13-stc-closed-form-ema-overflows', 'wt_R13', 1, 'C13', 'C13',
+     'stc helper ema() replaced by the closed-form vectorisation with (1-a)**(n-1) factors',
+     'more than about 1075 candles (float underflow / overflow); invisible in real arithmetic'),
+    ('C13-acosc-gradient-looks-ahead', 'wt_R13', 2, 'C13', 'C13',
+     'acosc change field computed with np.gradient (central differences)',
+     'any interior value compared between two input lengths'),
+    ('C13-kvo-backfills-trend-on-ties', 'wt_R13', 3, 'C13', 'C13',
+     'kvo trend vectorised with searchsorted(side=left): unchanged bars take the sign of the NEXT move',
+     'consecutive bars with exactly equal (H+L+C)/3'),
+    ('C18-append-multiple-stale-offset-after-drop', 'wt_R18', 1, 'C18', 'C18',
+     'append_multiple writes at an offset captured before the drop-oldest shift',
+     'a drop_at array and a bulk append landing exactly on a multiple of drop_at'),
+    ('C18-append-inplace-shift-odd-limit', 'wt_R18', 2, 'C18', 'C18',
+     'append replaces np_shift by an in-place copy that is off by one for odd drop_at',
+     'an odd drop_at with single appends'),
+    ('C18-delete-never-regrows', 'wt_R18', 3, 'C18', 'C18',
+     'delete re-grow guard compares with self.index: the buffer shrinks by one row per delete',
+     'repeated fill-and-empty cycles (bucket cycles), then an append'),
+    ('C03-flip-opens-with-whole-order-size', 'wt_R03', 1, 'C03', 'C03',
+     'Position flip: diff_qty inlined after _mutating_close, so the new position opens with the whole order quantity',
+     'a non-reduce-only order larger than the open position on the opposite side'),
+    ('C03-cancel-reduce-only-releases-foreign-row', 'wt_R03', 2, 'C03', 'C03',
+     'on_order_cancellation loses the `not reduce_only` guard',
+     'a reduce-only order and an ordinary one resting at the same qty and price; the reduce-only one cancelled'),
+    ('C03-pending-market-orders-reserve-nothing', 'wt_R03', 3, 'C03', 'C03',
+     'on_order_submission skips the reservation for MARKET orders',
+     'two market orders outstanding in the same tick'),
+    ('C06-plain-float-position-size', 'wt_R06', 1, 'C06', 'C06',
+     'Position._update_qty uses += / -= instead of sum_floats / subtract_floats',
+     'fractional multi-point entries (0.1 + 0.2) exited by one order for the decimal total'),
+    ('C06-fast-mode-fill-timestamp-is-chunk-start', 'wt_R06', 2, 'C06', 'C06,C01',
+     'fast mode sets store.app.time from real_candle[0] (chunk start) at a fill',
+     'fast_mode, route timeframe > 1m, a fill that is not in the first minute of the bar'),
+    ('C06-to-dict-rounds-money-fields', 'wt_R06', 3, 'C06', 'C06',
+     'ClosedTrade.to_dict rounds fee / size / PNL / PNL_percentage to 2 decimals',
+     'trades with a material sub-cent PnL'),
+    ('C20-full-batch-fast-path', 'wt_R20', 1, 'C20', 'C20',
+     '_fill_absent_candles returns the raw batch when its length equals the interval length',
+     'a batch of the right size containing a candle outside the interval'),
+    ('C20-add-candle-never-reaches-row-0', 'wt_R20', 2, 'C20', 'C20',
+     'add_candle search rewritten as range(len(arr) - 2, 0, -1): index 0 is never examined',
+     'a re-sent candle carrying the timestamp of the oldest stored candle'),
+    ('C20-spacing-gate-only-above-60s', 'wt_R20', 3, 'C20', 'C20',
+     'isolated backtest rejects leading spacing > 60000 ms instead of != 60000 ms',
+     'leading candles closer than one minute (duplicates, descending order)'),
+    ('C05-active-list-never-pruned', 'wt_R05', 1, 'C05', 'C05',
+     'update_active_orders filter uses `or` instead of `and`',
+     'a consumer of get_active_orders() that does not re-filter by status'),
+    ('C05-silent-execution-not-recorded', 'wt_R05', 2, 'C05', 'C05',
+     'Order.execute records the order in a trade only when not silent',
+     'execute(silent=True)'),
+    ('C05-cancel-flips-executed-order', 'wt_R05', 3, 'C05', 'C05',
+     'Order.cancel returns early only for cancelled orders: an executed order becomes CANCELED',
+     'a cancel request aimed at an already executed order'),
 ]
 
 
